@@ -201,9 +201,11 @@ def check(s):
     for p4 in sac_paths:
         auto = any(v for t, v in p4.conds if t == ("attr", ("param", "self"), "autotune"))
         tag = f"[autotune={auto}]"
-        ret = p4.ret
-        if not (isinstance(ret, tuple) and ret[0] == "tuple" and len(ret[1]) == 8):
+        from .util import tuple_elems
+        te_ = tuple_elems(b4, p4.ret)
+        if te_ is None or len(te_) != 8:
             raise AnalysisError(f"{con4}: expected an 8-tuple return")
+        ret = ("tuple", tuple(te_))
         pol, opt, qf1, qf2, qopt, la, aopt, log = ret[1]
         G = [x for x in walk(("tuple", (qf1, qf2))) if isinstance(x, tuple) and x and x[0] == "call" and isinstance(x[1], tuple)
              and x[1][0] == "gradfn"]
